@@ -12,16 +12,18 @@ Definition ex_eqb (a b : ex_outcome) : bool :=
 (** one extractor run: compiled type, what the framework's own extractor said, what the deserr
     extractor did, float-text oracle *)
 Record hcase := mkHC { hc_ty : dres ty; hc_fw : fw_outcome; hc_ex : ex_outcome; hc_ftext : list (N * string);
-                       hc_custom : bool (* run with the harness's user error type: 422, "custom: " ++ message *) }.
+                       hc_custom : option N (* run with the harness's user error type: its own status, "custom: " ++ message *) }.
 
-Definition custom_resp (m : string) : N * string := (422%N, ("custom: " ++ m)%string).
+Definition custom_resp (status : N) (m : string) : N * string := (status, ("custom: " ++ m)%string).
 
 (** the model's prediction equals the extractor's outcome *)
 Definition corr_c20 (h : hcase) : bool :=
   match hc_ty h with
   | Accept t =>
-    match (if hc_custom h then extract_with (assoc_text (hc_ftext h)) (assoc_text []) custom_resp t (hc_fw h)
-           else extract (assoc_text (hc_ftext h)) (assoc_text []) t (hc_fw h)) with
+    match (match hc_custom h with
+           | Some st => extract_with (assoc_text (hc_ftext h)) (assoc_text []) (custom_resp st) t (hc_fw h)
+           | None => extract (assoc_text (hc_ftext h)) (assoc_text []) t (hc_fw h)
+           end) with
     | Some e => ex_eqb e (hc_ex h)
     | None => false
     end
@@ -34,6 +36,6 @@ Definition mon_c20 (h : hcase) : bool :=
   match hc_fw h, hc_ex h with
   | FwRej s b, Rejected s' b' => N.eqb s s' && String.eqb b b'
   | FwRej _ _, Extracted _ => false
-  | FwDoc _, Rejected s _ => N.eqb s (if hc_custom h then 422 else 400)
+  | FwDoc _, Rejected s _ => N.eqb s (match hc_custom h with Some st => st | None => 400 end)
   | FwDoc _, Extracted _ => true
   end.
